@@ -149,7 +149,7 @@ def run(ctx):
                 spec, rank = probe.gen_probe(h, prng, k)
                 now = h.clock.peek()
                 fit, ident_free = probe.leaf_scan(h, spec, now)
-                res = probe.run_probe_child(h, spec, rank)
+                res = probe.run_probe_child(h, spec, rank, decoys=prng.random() < 0.3)
                 # undo generator side effects on the parent's model
                 if res is None:
                     ctx.count('probe_child_died')
@@ -162,6 +162,11 @@ def run(ctx):
                     ctx.violation('exception-in-probe-cycle', res['error'], res.get('tb'),
                                   case=dict(ops=h.drv.ops[-60:], probe=desc))
                     continue
+                if res.get('decoys') == 'disturbed':
+                    ctx.count('probe_decoys_disturbed_discarded')      # not the quiescent cell of the statement
+                    continue
+                if res.get('decoys') == 'planted':
+                    ctx.count('probe_behind_incomparable_pending_decoys')
                 if res['consulted']:
                     ctx.count('probe_tracker_consulted')
                 must = fit is not None and ident_free
